@@ -22,7 +22,7 @@ CHECKS = {
     "C03": ("exploration", "seeded exploration of log shapes (v0/v1/v2, wrappers, compaction gaps, empty/control batches, byte-cut responses) x concurrent getone/getmany/seek/pause/resume/position tasks x fetch faults; every delivery and position checked online against a sequential reference reader; bounded liveness after faults and appends stop", "DESIGN.md 5 C03"),
     "C08": ("exploration", "same engine over generated transactional logs (<=4 producers, committed/aborted/open transactions, compaction, solitary abort markers) at both isolation levels; reference reader from the model's aborted-transaction index; progress past filtered ranges", "DESIGN.md 5 C08"),
     "C12": ("exploration", "real AIOKafkaConnection / AIOKafkaClient.send against a scripted peer; the finite single-fault space (every 1-cut split of short responses, EOF/reset at every byte) is enumerated first, then seeded search over pipelining, timeouts, cancellation, wrong/duplicate/unsolicited ids, malformed frames, counter wrap", "DESIGN.md 5 C12"),
-    "C13": ("exploration", "group-less consumers: policies earliest/latest/none x isolation levels x ListOffsets v0-v3 x retriable lookup faults x seek() racing with the reset; first position / first record must match a ListOffsets reply actually served, out-of-range seeks must reset or raise per policy", "DESIGN.md 5 C13"),
+    "C13": ("exploration", "group-less consumers: policies earliest/latest/none x isolation levels x ListOffsets v0-v3 x retriable lookup faults x seek() racing with the reset; first position / first record must match a ListOffsets reply actually served, out-of-range seeks must reset or raise per policy; every fourth run is a 1-2 member consumer group against the coordinator model with committed offsets absent / inside / beyond the log end, growing logs, member and coordinator faults: each assignment must start at a committed offset the coordinator served, judged against the log range at lookup time, else per policy", "DESIGN.md 5 C13"),
     "C18": ("exploration", "real connect() with SCRAM-SHA-256/512 (handshake v0 raw tokens and v1) against an RFC 5802 server model: honest, wrong password, single-field tampering of either server message, impostor; client messages validated against the RFC grammar, login must succeed iff the server is honest and knows the password", "DESIGN.md 5 C18"),
 }
 
